@@ -77,6 +77,8 @@ def walk_store(path):
     if not os.path.isdir(path):
         return objs, temps, stray
     for root, _dirs, files in os.walk(path):
+        # legacy `<oid>.dir.unpacked` directories of old DVC versions are not objects
+        _dirs[:] = [x for x in _dirs if not x.endswith(".unpacked")]
         rel = os.path.relpath(root, path)
         for f in files:
             full = os.path.join(root, f)
